@@ -15,6 +15,12 @@ from amaranth import *
 from ..harness import Harness
 from ..engine import Query
 
+# FINDINGS (genuine defects found by this check on the original tree, fixed in /repo)
+#   977c80c "fix: ConstantStreamGenerator elaborates without a max_length limit again"
+#       ConstantStreamGenerator(data) with the default max_length_width=None raised AttributeError during elaboration
+#       (bytes_sent / max_length are plain ints there).  Caught by: probe_elab_nomax assert:elaborates_without_max_length
+#       (the *_maxnone configurations then exercise the repaired path: payload/first/last/valid_mask/silent/done).
+
 PROP = "C27"
 ENCODED = [
     "luna/gateware/stream/generator.py: ConstantStreamGenerator (_get_initializer_value, start_position clamp, "
